@@ -16,6 +16,7 @@ var (
 	c13Reads  []time.Time
 	c13WholeSeconds bool
 	c13FixedClock   bool
+	c13Concurrent   bool
 	c13Timers []time.Duration
 )
 
@@ -23,7 +24,9 @@ var (
 func c13Now() time.Time {
 	if c13FixedClock {
 		t := time.Unix(2000000000, 0)
-		c13Reads = append(c13Reads, t)
+		if !c13Concurrent {
+			c13Reads = append(c13Reads, t)
+		}
 		return t
 	}
 	// the next reading is an arbitrary instant not before the previous one
